@@ -276,3 +276,13 @@ def history_appends(sample, repo=None, cls=None):
                     out.append((r[2], e.node))
     cache[key] = out
     return out
+
+
+# behaviour-preserving extract-method refactoring of the loop body (negative control shared by the properties that fold the SMC driver):
+# the new private helper is inlined back by aspire_sa/inline.py before any rule looks at sample()
+from ..mutants import M as _M  # noqa: E402
+
+HELPER_NEUTRAL = _M("loop body's resample + mutate + record moved into a new private helper", "src/aspire/samplers/smc/base.py",
+                    "samples = samples.resample(beta, rng=self.rng)\n\n                samples = self.mutate(samples, beta)\n                if store_sample_history:\n                    self.history.sample_history.append(samples)",
+                    "samples = self._move(samples, beta, store_sample_history)", within="SMCSampler",
+                    more=[("def mutate(self, particles):", "def _move(self, samples, beta, store):\n        samples = samples.resample(beta, rng=self.rng)\n        samples = self.mutate(samples, beta)\n        if store:\n            self.history.sample_history.append(samples)\n        return samples\n\n    def mutate(self, particles):")])
